@@ -253,3 +253,8 @@ LEVEL_NOTE = ("Purity (the document is never modified) cannot be stated in a fun
               "obligation and the before/after comparison here. `{k|number}` on non-integer texts and %f renderings are out of model "
               "(counted).")
 TECHNIQUE = "Lean 4 proof (structural induction over selector steps and documents) + differential correspondence incl. random strings"
+
+# the text of the functions this property's model mirrors is a regenerated fact (Obligations/PinC09: closed by rfl)
+FACTS = True
+LEAN_TARGETS = list(LEAN_TARGETS) + ["Genql.Obligations.PinC09"]
+THEOREMS = list(THEOREMS) + ["Genql.Obligations.PinC09.pinned_text"]
